@@ -302,7 +302,7 @@ void h_delete_parameter(void)
     prm_view_of(vcp, &post);
     live = handle >= 0 && handle < pre.allocation && pre.slot[handle] != NULL &&
 	!pre.deleted[handle];
-    if (handle < VNACAL_PREDEFINED_PARAMETERS) {
+    if (handle >= 0 && handle < VNACAL_PREDEFINED_PARAMETERS) {	/* a negative handle is not a handle: refused below */
 	REACH("delete of a predefined handle");
 	CHECK(rc == 0 && ghost_err_calls == 0,
 		"deleting a predefined handle is a silent no-op");
